@@ -34,7 +34,7 @@ fn has_call_or_iterate(c: &Context) -> bool {
 }
 
 pub fn run(ctx: &mut Ctx) {
-    let total = ctx.q(15000, 250000);
+    let total = ctx.q(10000, 250000);
     ctx.cases("giter", total, |ctx, idx| {
         let class = CLASSES[(idx % CLASSES.len() as u64) as usize];
         // every length 0..40 is visited in rotation; lengths around the 15/16 switch more often
